@@ -7,8 +7,11 @@ namespace coloquinte {
 
 void exportIspdAux(const std::string &filename) {
   std::ofstream f(filename + ".aux");
-  f << "RowBasedPlacement : " << filename << ".nodes " << filename << ".nets "
-    << filename << ".pl " << filename << ".scl" << std::endl;
+  // The files are named relative to the .aux file: readers look for them in its
+  // directory
+  std::string name = filename.substr(filename.find_last_of("/\\") + 1);
+  f << "RowBasedPlacement : " << name << ".nodes " << name << ".nets " << name
+    << ".pl " << name << ".scl" << std::endl;
 }
 
 void exportIspdNodes(const Circuit &circuit, const std::string &filename) {
